@@ -50,8 +50,9 @@ def lin_cases(crate, path, sub=None):
     return cs, b
 
 
-def pure_lin_cases(crate, path):
-    """guarded linear cases of a function that is a closed form without effects; None otherwise"""
+def pure_lin_cases(crate, path, allow_calls=False):
+    """guarded linear cases of a function that is a closed form without effects; None otherwise.
+    With allow_calls, mutating calls are tolerated (the caller compares them separately)."""
     b = crate.body(path)
     if b is None:
         return None
@@ -61,7 +62,8 @@ def pure_lin_cases(crate, path):
     except RecursionError:
         return None
     for e in ev.events:
-        if e['depth'] == 0 and e['kind'] in ('assign', 'mutcall', 'break') or (e['kind'] == 'loop' and e['depth'] == 0 and not e.get('reduced')):
+        if e['depth'] == 0 and e['kind'] in (('assign', 'break') if allow_calls else ('assign', 'mutcall', 'break')) \
+                or (e['kind'] == 'loop' and e['depth'] == 0 and not e.get('reduced')):
             return None
     out = [(tuple(ev.fallthrough_pc), top)]
     for e in ev.events:
